@@ -26,10 +26,10 @@ def run(ctx):
     exe = pc.harness()
     ctx.phase('build')
     r = ctx.rng
-    n = 150 if ctx.quick else 2500
+    n = 120 if ctx.quick else 2500
     cases = [pc.gen_case(r, exceptions=(i % 3 == 0), small=(i % 10 != 0) or ctx.quick) for i in range(n)]
     kept, terms = pc.run_lockstep(ctx, exe, cases)
-    nn = 16 if ctx.quick else 150
+    nn = 12 if ctx.quick else 150
     ncases = [pc.gen_native(r, exceptions=False) for _ in range(nn)]
     nkept, nterms = pc.run_native(ctx, exe, ncases, 2)
     ctx.cov['evaluations'] += len(cases) + len(nkept)
@@ -38,7 +38,12 @@ def run(ctx):
     ctx.cov['rule'] = ('random pipelines (1-4 later stages, limits 1/2/3/unlimited/0,4,7 or plain functors, filters, 0-6 items (lockstep) / 0-30 (native), 1-3 workers, '
                        'poolLoadFactor large or tight) x random schedules under vsched, one fork per case; non-trivial = more than 20 steps; distinct = distinct (trace, log) strings; '
                        'native = real pools of 0-4 threads, 2 repetitions')
-    verdicts = ls_common.judge_parallel(ctx, pc.IMPORTS, 'judge_c28', terms + nterms, shard_size=60)
+    verdicts = ls_common.judge_parallel(ctx, pc.IMPORTS, 'judge_c28', terms, shard_size=60)
+    nverd = ls_common.judge_parallel(ctx, pc.IMPORTS, 'judge_c28n', nterms, shard_size=60)
+    if verdicts is not None and nverd is not None:
+        verdicts = verdicts + nverd
+    else:
+        verdicts = None
     if verdicts is None:
         ctx.broken.append('correspondence L(C28): the model no longer evaluates')
         return
@@ -46,8 +51,6 @@ def run(ctx):
     allk = kept + nkept
     for i, (v, (c, p, o)) in enumerate(zip(verdicts, allk)):
         native = i >= len(kept)
-        if native and v == 1:
-            v = 0                     # native histories have no schedule: only the property is judged
         hist[v] = hist.get(v, 0) + 1
         line = pc.native_line(c, 1) if native else pc.line_of(c)
         if v == 2:
